@@ -25,6 +25,8 @@ CHECKS = {
              note="Bounds in evidence.coverage.bounds; names with more than 2 unconstrained bytes only through templates; compression pointers inside rdata of name-carrying answers are left out; one handler at a time."),
  "C13": dict(text="All histories of k operations (handshakes from two addresses, data packets, client closes, server-side closes of any session object, time advances with a run of the real pruning goroutine) on the real ServerDnsListener from the empty table, plus all two-slot tables x one pruning run, plus one spoofed message of every id-carrying command with fully symbolic sequence numbers against a live session; a ghost model says which sessions must still be live.",
              note="Handlers run one at a time (no true concurrency); two client addresses; history length k<=4 quick / 5 thorough; responses captured as objects (wire = C10)."),
+ "C18": dict(text="Address strings built from every documented scheme (and accepted alias, and a set of strangers) with one or two symbolic edits at every position go through the real dispatchers unmarshalServer, unmarshalChannel, unmarshalUpstream and Listeners.UnmarshalFlag (addr.ParseAddress and net/url executed for real); asserted: the documented concrete type or an error, never a panic; accepted server addresses run the real Startup to the listen call and accepted upstream URLs the real Connect against a scripted server, asserting TLS listen/ServeTLS/TLS wrap/TLS dial/wss exactly for +tls, https and wss.",
+             note="The YAML/JSON/go-flags front ends are reflection-based and outside (so 'identically from YAML, JSON or the command line' is decided only for the dispatch functions they end in); encoding/json inside the dispatchers is a stub; at most two arbitrary bytes per scheme; edits introducing a colon or leading white space are excluded (they move the scheme boundary); no native replay (engine concrete replay), findings confirmed by native scenarios."),
  "C19": dict(text="All wrapper compositions up to the depth bound and all call sequences up to the length bound are enumerated as symbolic choices over the real wrapper code with counting fakes underneath; complete within those bounds.",
              note="Outside: depth > 4, sequences longer than the bound, concurrent calls; underlying resources are harness fakes."),
 }
